@@ -122,13 +122,15 @@ Fixpoint classify_from (i : nat) (tables : list (list bytes)) (st : bytes) : dec
   end.
 Definition classify (tables : list (list bytes)) (st : bytes) : decision := classify_from O tables st.
 
-(* no read error before [n] bytes have been delivered or the peer has closed *)
+(* no read error before [n] bytes have been delivered, unless nothing more ever
+   arrives after it (the peer has closed, or stays silent and the sniff
+   deadline — which is not reset between matchers — keeps firing) *)
 Fixpoint good (n : nat) (sc : script) : bool :=
   match sc with
   | [] => true
   | it :: sc' =>
       if Nat.leb n (length (it_data it)) then true
-      else Z.eqb (it_err it) 0 && good (n - length (it_data it)) sc'
+      else (Z.eqb (it_err it) 0 && good (n - length (it_data it)) sc') || is_nil (stream sc')
   end.
 
 Definition max_depth_all (tables : list (list bytes)) : nat :=
